@@ -51,7 +51,17 @@ G_LIST = {"<start>": ["<list>"], "<list>": ["<item>", "<item>,<list>"],
 G_WIDE = {"<start>": ["<row>"], "<row>": ["<c>" * 30, "<c><c>"], "<c>": ["0", "1", "<e>"], "<e>": ["x"]}
 # recursive nonterminal with real nesting AND repeated identical subtrees (a+b+a, ((1)))
 G_EXPR = {"<start>": ["<expr>"], "<expr>": ["(<expr>)", "<term>+<expr>", "<term>"], "<term>": ["1", "a", "b"]}
-GRAMMARS = {"assgn": G_ASSGN, "block": G_BLOCK, "list": G_LIST, "wide": G_WIDE, "expr": G_EXPR}
+# AMBIGUOUS: "1" is a <num> or a <word>; trees are built by derivation (not parsed), so equal texts
+# with different derivations occur side by side
+G_AMB = {"<start>": ["<items>"], "<items>": ["<item>", "<item>;<items>"], "<item>": ["<num>", "<word>"],
+         "<num>": ["1", "2"], "<word>": ["1", "a"]}
+# two grammars that share nonterminal names but differ in shape (<pair> reaches <key>=<val> directly / via <entry>)
+G_KVA = {"<start>": ["<pairs>"], "<pairs>": ["<pair>", "<pair>;<pairs>"], "<pair>": ["<key>=<val>"],
+         "<key>": ["a", "b"], "<val>": ["a", "b", "1"]}
+G_KVB = {"<start>": ["<pairs>"], "<pairs>": ["<pair>", "<pair>;<pairs>"], "<pair>": ["<entry>"],
+         "<entry>": ["<key>=<val>"], "<key>": ["a", "b"], "<val>": ["a", "b", "1"]}
+GRAMMARS = {"assgn": G_ASSGN, "block": G_BLOCK, "list": G_LIST, "wide": G_WIDE, "expr": G_EXPR,
+            "amb": G_AMB, "kva": G_KVA, "kvb": G_KVB}
 # only for known-finding witnesses
 G_EPS = {"<start>": ["<a>"], "<a>": ["<c><b>"], "<c>": ["", "y"], "<b>": ["z"]}
 WITNESS_GRAMMARS = dict(GRAMMARS, eps=G_EPS)
@@ -73,6 +83,12 @@ MEXPRS = {
              ("<item>", ["(", ("bind", "l", "<list>"), ")"]),
              ("<num>", [("bind", "d", "<digit>"), ("bind", "n", "<num>")]),
              ("<list>", [("bind", "h", "<item>"), [",", "<list>"]])],
+    "amb": [("<item>", [("bind", "n", "<num>")]), ("<item>", [("bind", "w", "<word>")]),
+            ("<items>", [("bind", "h", "<item>"), ";", ("bind", "r", "<items>")])],
+    "kva": [("<pair>", [("bind", "k", "<key>"), "=", ("bind", "v", "<val>")]),
+            ("<pairs>", [("bind", "p", "<pair>"), [";", "<pairs>"]])],
+    "kvb": [("<pair>", [("bind", "k", "<key>"), "=", ("bind", "v", "<val>")]),
+            ("<pairs>", [("bind", "p", "<pair>"), [";", "<pairs>"]])],
     "expr": [("<expr>", ["(", ("bind", "e", "<expr>"), ")"]),
              ("<expr>", [("bind", "t", "<term>"), "+", ("bind", "e", "<expr>")]),
              ("<expr>", [("bind", "t", "<term>"), ["+", "<expr>"]])],
@@ -126,7 +142,7 @@ def rand_derivation(rng, cg, md, nt, depth):
 # --------------------------------------------------------------------------
 # formula AST (own) -> isla objects / concrete syntax
 # --------------------------------------------------------------------------
-LITS = ["x", "y", "0", "1", "a", "", "x := 1", "da;", "{}", "12", "(0)", "00", "b", "(1)", "a+b"]
+LITS = ["x", "y", "0", "1", "a", "", "x := 1", "da;", "{}", "12", "(0)", "00", "b", "(1)", "a+b", "2", "a=a", "1;1"]
 PRED2 = ["before", "after", "inside", "same_position", "different_position", "direct_child", "consecutive"]
 OPS = ["EQ", "GE", "LE", "GT", "LT"]
 CMPS = [("CEq", "="), ("CLt", "<"), ("CLe", "<="), ("CGt", ">"), ("CGe", ">=")]
@@ -257,6 +273,25 @@ def templates(g):
         out.append(("exists", a, S, None, ("exists", b, S, None,
                     ("and", [("sp", "before", [("var", a), ("var", b)]),
                              ("streq", False, ("var", a), ("var", b))]))))
+    # derivation-sensitive: "every <ty> contains a <c>" for the nonterminals c occurring in <ty>'s own
+    # alternatives (tells equal texts with different derivations apart), and its existential dual
+    cg = canonical(g)
+    n_child = 0
+    for k, ty in enumerate(nonterminals(g)):
+        kids = []
+        for alt in cg[ty]:
+            for sym in alt:
+                if L.is_nonterminal(sym) and sym != ty and sym not in kids:
+                    kids.append(sym)
+        for j, c in enumerate(kids[:2]):
+            if n_child >= 2:
+                break
+            n_child += 1
+            x, y = ("dx%d_%d" % (k, j), ty), ("dy%d_%d" % (k, j), c)
+            out.append(("forall", x, S, None, ("exists", y, x, None, ("len", ("CGe", ">="), ("var", y), 0))))
+            out.append(("exists", x, S, None, ("and", [
+                ("forall", y, x, None, ("len", ("CLt", "<"), ("var", y), 0)),      # "x contains no <c>"
+                ("len", ("CGe", ">="), ("var", x), 1)])))
     hint = COUNT_HINT.get(id(g), {})
     for k, ty in enumerate(recursive_nts(g)[:3]):
         x = ("cx%d" % k, ty)
@@ -543,6 +578,56 @@ def agrees_with_spec(ev, ck, sp):
     return ev == ("ok", want) and ck == ("ok", sp[1])
 
 
+def prefix_tree_problem(tree, paths, n_type, cg):
+    """independent check of one BindExpression.to_tree_prefix result (prefix trees are INPUTS of model
+    and spec): root label, every inner node spells an alternative of ITS label in THIS grammar, closed
+    childless nonterminals only where an epsilon alternative exists, bound paths point at nodes that
+    carry the variable's type.  Returns None or a text."""
+    if tree.value != n_type:
+        return f"root {tree.value} instead of {n_type}"
+    for p, n in spec_sem.nodes(tree):
+        if not L.is_nonterminal(n.value):
+            continue
+        if n.value not in cg:
+            return f"unknown nonterminal {n.value} at {p}"
+        if n.children is None:
+            continue
+        labels = [c.value for c in n.children]
+        if labels == [""]:
+            labels = []
+        if labels not in [list(a) for a in cg[n.value]] and not (labels == [] and [""] in [list(a) for a in cg[n.value]]):
+            return f"children {labels} of {n.value} at {p} are not an alternative of this grammar"
+    for v, p in paths.items():
+        n = spec_sem.subtree(tree, p)
+        if n is None:
+            return f"path {p} of {v} not in the prefix tree"
+        if L.is_nonterminal(v.n_type) and n.value != v.n_type:
+            return f"{v} : {v.n_type} bound to a node labelled {n.value}"
+    return None
+
+
+def prefix_trees_problem(f, grammar):
+    """first problem of any match expression's prefix trees in formula f under `grammar`, or None"""
+    cg = canonical(grammar)
+    if isinstance(f, L.PropositionalCombinator):
+        for a in f.args:
+            r = prefix_trees_problem(a, grammar)
+            if r:
+                return r
+        return None
+    if isinstance(f, L.NumericQuantifiedFormula):
+        return prefix_trees_problem(f.inner_formula, grammar)
+    if isinstance(f, L.QuantifiedFormula):
+        if f.bind_expression is not None:
+            ty = f.bound_variable.n_type
+            for t, paths in f.bind_expression.to_tree_prefix(ty, grammar):
+                r = prefix_tree_problem(t, paths, ty, cg)
+                if r:
+                    return f"{f.bind_expression} for {ty}: {r}"
+        return prefix_trees_problem(f.inner_formula, grammar)
+    return None
+
+
 def py_keps(f, grammar):
     """Python mirror of EvalFacts.K_mexpr_eps_shape: some match-expression prefix tree has a closed
     leaf labelled with a nonterminal"""
@@ -799,6 +884,7 @@ def run(run):
             "strategy2_numeric": 0, "strategy2_on_duplicate_subtrees": 0, "strategy2_unknown": 0,
             "unencodable": 0, "wide_tree_cases": 0}
     s2_keys = []
+    kept_trees = {}
     verdicts_per_formula = {}
     spec_failures = []      # impl departs from spec (candidates)
     s2_shards, s2_meta = [], []     # second-strategy cases for the Coq model (Eval2.v)
@@ -822,7 +908,13 @@ def run(run):
             s2_meta.append([meta])
         return meta
 
+    n_formulas_std, n_trees_std = n_formulas, n_trees
     for gname, g in GRAMMARS.items():
+        # the targeted grammars (ambiguity, cross-grammar shapes) run mostly on their templates and
+        # match expressions: fewer trees and random formulas keep the quick tier within budget
+        light = gname in ("amb", "kva", "kvb") and not thorough
+        n_formulas = 2 if light else n_formulas_std
+        n_trees = 4 if light else (n_trees_std - 1 if not thorough else n_trees_std)
         cg = canonical(g)
         md = min_depths(cg)
         trees = []
@@ -836,6 +928,15 @@ def run(run):
                 except Exception:
                     pass
             trees.append(t)
+        if gname == "amb":
+            # equal texts, different derivations, side by side (built directly, a parser would pick one)
+            def amb_items(kinds):
+                item = lambda k: T("<item>", [T("<num>" if k == "n" else "<word>", [T("1", ())])])
+                if len(kinds) == 1:
+                    return T("<items>", [item(kinds[0])])
+                return T("<items>", [item(kinds[0]), T(";", ()), amb_items(kinds[1:])])
+            trees[0] = T("<start>", [amb_items("nw")])
+            trees[1] = T("<start>", [amb_items("wnw")])
         COUNT_HINT[id(g)] = {nt: [sum(1 for _, n in spec_sem.nodes(t) if n.value == nt) for t in trees]
                              for nt in nonterminals(g)}
         formulas = templates(g)
@@ -874,6 +975,14 @@ def run(run):
                 except Exception as e:
                     solver = e
                 compiled.append((fi, how, ast, src, fobj, solver))
+        kept_trees[gname] = trees
+        for (fi, how, ast, src, fobj, solver) in compiled:
+            pr = prefix_trees_problem(fobj, g)
+            if pr:
+                run.violation({"kind": "match-expression prefix tree is not a derivation of this grammar",
+                               "problem": pr, "witness": {"grammar": gname, "formula": str(fobj), "source": src},
+                               "obligation": "BindExpression.to_tree_prefix (input of model and spec)"})
+                break
         for ti, t in enumerate(trees):
             tname = f"T_{gname}_{ti}"
             defs = f"Definition {tname} := {g_tree(t)}.\n"
@@ -979,6 +1088,46 @@ def run(run):
                         "kcons": (uses_consecutive(w)
                                   and agrees_with_spec(ev, ck, spec_verdict_code_consecutive(w, t, g, bound)))})
 
+    # ---- cross-grammar stream: equal match expressions for the same nonterminal, FRESH formula objects,
+    # evaluated alternately under two grammars that share names but differ in shape (one process)
+    S = ("start", "<start>")
+    cross_asts = []
+    for q in ("forall", "exists"):
+        for neg in (False, True):
+            cross_asts.append((q, ("cp", "<pair>"), S, [("bind", "ck", "<key>"), "=", ("bind", "cv", "<val>")],
+                               ("streq", neg, ("var", ("ck", "<key>")), ("var", ("cv", "<val>")))))
+    cross_asts.append(("exists", ("cq", "<pairs>"), S, [("bind", "cp2", "<pair>"), [";", "<pairs>"]],
+                       ("count", ("cp2", "<pair>"), "<key>", "1")))
+    hist["cross_grammar_cases"] = 0
+    for rnd in range(2):
+        for ast in cross_asts:
+            for gname in (("kva", "kvb") if rnd == 0 else ("kvb", "kva")):
+                g = GRAMMARS[gname]
+                fobj = build(ast)
+                pr = prefix_trees_problem(fobj, g)
+                if pr:
+                    run.violation({"kind": "match-expression prefix tree is not a derivation of this grammar "
+                                           "(cross-grammar stream)", "problem": pr,
+                                   "witness": {"grammar": gname, "formula": str(fobj)},
+                                   "obligation": "BindExpression.to_tree_prefix"})
+                    continue
+                try:
+                    solver = ISLaSolver(g, fobj)
+                except Exception as e:
+                    solver = e
+                for t in kept_trees.get(gname, [])[:4]:
+                    ev = impl_evaluate(fobj, t, g)
+                    ck = impl_check(solver, t) if not isinstance(solver, Exception) else ("raise", lib.exn_name(solver))
+                    sp = spec_verdict(fobj, t, g)
+                    hist["cross_grammar_cases"] += 1
+                    key = ("cross", gname, str(fobj))
+                    verdicts_per_formula.setdefault(key, set()).add(sp)
+                    s2_keys.append((key, (rnd, str(t))))
+                    if not agrees_with_spec(ev, ck, sp):
+                        spec_failures.append({"grammar": gname, "tree": tree_json(t), "input": str(t),
+                                              "formula": str(fobj), "source": None, "how": "cross-grammar",
+                                              "evaluate": ev, "check": ck, "spec": sp, "key": key, "wide": False})
+
     t_3 = time.time()
     # numeric quantifiers: second strategy (eliminate_quantifiers + Z3), checked against the spec only
     num_forms = [
@@ -1070,7 +1219,7 @@ def run(run):
     run.cov["formulas"] = len(verdicts_per_formula)
     run.cov["nonconstant_formula_fraction"] = round(frac, 3)
     run.cov["histogram"] = hist
-    run.cov["triples"] = sum(len(ms) for ms in smeta) + hist["strategy2_numeric"]
+    run.cov["triples"] = sum(len(ms) for ms in smeta) + hist["strategy2_numeric"] + hist["cross_grammar_cases"]
     print(f"[C03] triples={run.cov['triples']} formulas={len(verdicts_per_formula)} "
           f"non-constant={frac:.0%} hist={hist}", flush=True)
     if frac < 0.30:
